@@ -67,6 +67,8 @@ AlphaSet ==
            {E("ul", ""), E("li", ""), E("p", "")}
       [] Alpha = "q6" ->  \* (Lax) lists and div wrappers directly inside lists
            {E("ul", ""), E("ol", ""), E("li", ""), E("div", ""), E("p", "")}
+      [] Alpha = "q7" ->  \* the attribute dimension: every generated class / id combination on a box
+           {E("div", a) : a \in PlainAttrs \cup VocabAttrs \cup NearAttrs} \cup {E("p", "")}
       [] Alpha = "t2" ->  \* thorough: the whole attribute vocabulary on one box kind
            {E("div", a) : a \in PlainAttrs \cup VocabAttrs \cup NearAttrs \cup RoleHints}
            \cup {E("p", ""), E("footer", ""), E("aside", ""), LinkDiv(""), LinkList5("")}
